@@ -19,7 +19,7 @@ NONTRIVIAL_RULE = (
 )
 EXPLANATION = (
     "Real threads serialised by a solver-driven scheduler with yield points at every source line of "
-    "eliot/_output.py; MemoryLogger._lock is replaced by a cooperative lock with threading.Lock's contract. "
+    "eliot/_output.py; every Lock the output layer creates (eliot._output.Lock, at construction or lazily) is a cooperative lock with threading.Lock's contract. "
     "Oracle: the final logger state and every operation's result equal those of some sequential order of the "
     "same operations (linearisability), the parallel lists stay paired, no deadlock; for FileDestination the "
     "recorded file content is a permutation of whole lines."
@@ -32,6 +32,9 @@ ASSUMPTIONS = [
 ]
 
 OUT_FILE = _output.__file__
+import threading as _threading
+
+_REAL_LOCK = _threading.Lock()
 TYPED = MessageType("t:typed", [Field.for_types("x", [int], "x")], "typed")
 
 OPS = ["write-plain", "write-typed", "write-traceback", "validate", "serialize", "flush", "reset", "write-invalid"]
@@ -122,9 +125,31 @@ def body_E1(ctx):
         thread_ops = [[menu[ctx.choose(len(menu), "op t%d.%d" % (t, i))] for i in range(per)] for t in range(nthreads)]
     preload = int(sh.get("preload", 0))
     sched = Sched(ctx, watch={OUT_FILE: None}, preemptions=sh.get("P", 3))
+    # Every threading.Lock the output layer creates from here on - in MemoryLogger.__init__ or
+    # lazily, on first use, by whichever thread gets there - is a cooperative lock.
+    locks = []
+
+    def make_lock():
+        locks.append(SchedLock(sched))
+        return locks[-1]
+
+    saved_lock_factory = getattr(_output, "Lock", None)
+    if saved_lock_factory is not None:
+        _output.Lock = make_lock
+    try:
+        return _body_E1_locked(ctx, sh, sched, locks, thread_ops, nthreads, preload)
+    finally:
+        if saved_lock_factory is not None:
+            _output.Lock = saved_lock_factory
+
+
+def _body_E1_locked(ctx, sh, sched, locks, thread_ops, nthreads, preload):
     logger = MemoryLogger()
     _preload(logger, preload)
-    logger._lock = SchedLock(sched)
+    if not locks and isinstance(logger.__dict__.get("_lock"), type(_REAL_LOCK)):
+        # the lock was not made through _output.Lock: swap the instance attribute instead
+        logger._lock = SchedLock(sched)
+        locks.append(logger._lock)
     outs = {}
     written = [(m, s) for m, s in zip(logger.messages, logger.serializers)]
 
@@ -139,7 +164,7 @@ def body_E1(ctx):
         return work
 
     def invariant(s):
-        if not logger._lock.held:
+        if not any(l.held for l in locks):
             ctx.check(len(logger.messages) == len(logger.serializers), "lock is free but messages/serializers have lengths %d/%d (%s)", len(logger.messages), len(logger.serializers), s.render())
 
     sched.on_step = invariant
